@@ -55,7 +55,7 @@ def run(ctx):
         ctx.log("replay %s: %d cases, served %d, not served %d, applies %d, findings %s" % (
             tag, s["cases"], s["served"], s["not_served"], s["applies"], s["classes"]))
         if s["not_served"]:
-            print("OBSERVATION property=C13 GetWriteLog declined %d of %d (r1, r2) pairs (error return, no log served; see DESIGN.md R.5): %s" % (
+            print("OBSERVATION property=C13 GetWriteLog declined %d of %d (r1, r2) pairs (error return, no log served; pairs with r1 != r2 are judged below, r1 = r2 is not a pair of consecutive roots): %s" % (
                 s["not_served"], s["served"] + s["not_served"], json.dumps(s.get("declines") or {})[:600]))
         for f in s["findings"] or []:
             kind = f["kind"]
@@ -65,10 +65,14 @@ def run(ctx):
                     ctx.drift.append(line)
                     print(line)
                 continue
-            if (kind, f["backend"]) in seen:
+            noop = bool((f.get("variant") or {}).get("noop_overwrite")) if kind == "declined" else None
+            if (kind, f["backend"], noop) in seen:
                 continue
-            seen.add((kind, f["backend"]))
-            vlib.report(ctx, "%s on %s/%s: %s" % (kind, f["backend"], f["root_type"], f["msg"][:600]), f, {"kind": kind})
+            seen.add((kind, f["backend"], noop))
+            keys = {"kind": kind}
+            if kind == "declined":      # no log served for two consecutive, different, finalized roots
+                keys.update(backend=f["backend"], noop_overwrite=noop)
+            vlib.report(ctx, "%s on %s/%s: %s" % (kind, f["backend"], f["root_type"], f["msg"][:600]), f, keys)
         return g, s
 
     # (a) one case per distinct (initial contents, batch result, last op), each with every single corruption of its log
